@@ -347,7 +347,7 @@ func checkC02(p *Program, r *Report) {
 
 func checkBulkOps(p *Program, r *Report, prop string) {
 	cOnly := prop == "C03"
-	r.Rule("R02.1", "fast paths are guarded: (a) every Impl[a:b] is dominated by Contiguous()==true on the object whose storage is sliced; (b) every write through x.Unroll() that relies on aliasing is dominated by x.Contiguous()==true or x is a fresh root array; (c) at such a site every concrete Unroll that may be the callee returns an alias of the storage when contiguous")
+	r.Rule("R02.1", "fast paths are guarded: (a) every Impl[a:b] is dominated by Contiguous()==true on the object whose storage is sliced, and (d) has an upper end (an open-ended Impl[a:] is tolerated only as the source of a copy into a bounded destination); (b) every write through x.Unroll() that relies on aliasing is dominated by x.Contiguous()==true or x is a fresh root array; (c) at such a site every concrete Unroll that may be the callee returns an alias of the storage when contiguous")
 	r.Rule("R02.2", "the contiguity predicate consults what contiguity depends on: its result is control-dependent on comparisons reading Step, Dims and (OriginalDims or Offset)")
 	r.Rule("R02.3", "aliasing clause: in every Go-backed Unroll the value returned under Contiguous()==true is a sub-slice of Impl (no allocation); Reshape's contiguous result takes that value as its Impl")
 	r.Rule("R02.4", "error conditions: ReshapeFast fails exactly under !Contiguous() and otherwise returns Reshape's result; Reshape's success returns are on the equal edge of Product(newShape) vs Product(Shape()) and its error return on the unequal edge")
@@ -386,6 +386,12 @@ func checkBulkOps(p *Program, r *Report, prop string) {
 				k++
 				owner := implOwner(sl.X)
 				key := fmt.Sprintf("%s.%s:Impl[a:b]#%d", tname, n, k)
+				// (d) the window ends with the view: `Impl[a:]` runs on to the end of the storage the view was cut from.
+				// Harmless only as the source of a copy whose destination is itself bounded.
+				if openEndedImplWindow(sl) {
+					r.Fail("R02.1", key+":open-ended", p.Pos(sl.Pos()), openEndedMsg)
+					return
+				}
 				if contiguousGuard(sl.Block(), owner, true) {
 					r.OK("R02.1", fmt.Sprintf("%s.%s: Impl[a:b] under Contiguous()==true of the sliced object", tname, n))
 				} else {
@@ -441,6 +447,9 @@ func checkBulkOps(p *Program, r *Report, prop string) {
 	checkFlatDecoding(p, r, cOnly)
 	if !cOnly {
 		checkHelpersAlwaysWrite(p, r)
+	}
+	if !cOnly {
+		checkFlatPairing(p, r, cOnly)
 	}
 
 	// ---- R02.1(b,c): Unroll write-through sites
@@ -1280,7 +1289,6 @@ func checkReductionInit(p *Program, r *Report, cOnly bool) {
 	_ = cOnly
 }
 
-
 // sameFieldOrValue: a and b are the same value, or loads of the same field path of the same object.
 func sameFieldOrValue(a, b ssa.Value) bool {
 	if sameValue(a, b) {
@@ -1369,7 +1377,6 @@ func checkFlatDecoding(p *Program, r *Report, cOnly bool) {
 	}
 	r.Floor("R02.9", "flat-position decodings", n, 1)
 }
-
 
 // checkHelpersAlwaysWrite (R02.10): a whole-array helper func(dest, source, …) of package data, which exists to
 // write dest, writes it on every path: every return is reached only through a loop that writes dest (element store
@@ -1501,7 +1508,6 @@ func checkHelpersAlwaysWrite(p *Program, r *Report) {
 	r.Floor("R02.10", "whole-array helpers with a destination", n, 6)
 }
 
-
 // callsItsParam: f invokes its j-th parameter (a function value) inside a loop or directly.
 func callsItsParam(f *ssa.Function, j int) bool {
 	if f == nil || f.Blocks == nil || j >= len(f.Params) {
@@ -1514,7 +1520,6 @@ func callsItsParam(f *ssa.Function, j int) bool {
 	}
 	return false
 }
-
 
 // unrolledArray: the array whose storage the slice v is the Unroll() of — directly, or as a result of a module
 // helper that returns the Unroll() of one of its parameters (nil results on its other paths are ignored).
@@ -1571,4 +1576,242 @@ func unrollThroughHelper(c *ssa.Call, res int, depth int) ssa.Value {
 		}
 	}
 	return nil
+}
+
+const openEndedMsg = "the window cut from the backing store has no upper end (Impl[a:]): it runs on to the end of the storage the view was sliced from, so a bulk operation through it reaches the elements that follow the view — cells no element-by-element visit of the view would touch"
+
+// openEndedImplWindow: sl cuts `Impl[a:]` without an upper end and is used for anything but the source of a copy into
+// a bounded destination.
+func openEndedImplWindow(sl *ssa.Slice) bool {
+	if sl.High != nil {
+		return false
+	}
+	n := 0
+	for _, ref := range refs(sl) {
+		if _, dbg := ref.(*ssa.DebugRef); dbg {
+			continue
+		}
+		n++
+		c, ok := ref.(ssa.CallInstruction)
+		if !ok {
+			return true
+		}
+		bi, ok := c.Common().Value.(*ssa.Builtin)
+		if !ok || bi.Name() != "copy" || c.Common().Args[1] != ssa.Value(sl) {
+			return true
+		}
+		if d, ok := c.Common().Args[0].(*ssa.Slice); ok && d.High == nil && isImplValue(d.X) {
+			return true
+		}
+	}
+	return n == 0
+}
+
+// checkFlatPairing (R02.11): a fast path that pairs the flat storage of two arrays position by position
+// (`copy(a.Unroll(), b.Unroll())`, a block copy between windows of the two backing stores, or one loop indexing both unrolled slices with the same counter) visits the same
+// pairs of elements as the element-by-element definition only when the two arrays have the same shape. The function
+// has to establish that: a is cut to b's shape (`x.Slice(loc, b.Shape(), step)`), a guard compares the two shapes,
+// or the function's own general path pairs a and b directly by one index vector (`a.Set(idx, f(b.Get(idx)))`), so
+// that same shape is the contract of both paths alike.
+func checkFlatPairing(p *Program, r *Report, cOnly bool) {
+	r.Rule("R02.11", "flat pairings are shape-safe: where a fast path pairs the unrolled storage of two arrays position by position, the destination is a view cut to the source's shape, or a guard compares the two shapes, or the function's general path pairs the same two arrays by one index vector — otherwise rows of a narrower source spill into each other (the general path goes through a view of the destination, the fast path does not)")
+	n := 0
+	unrollRecv := func(v ssa.Value) ssa.Value {
+		for _, o := range origins(v) {
+			if c, ok := o.(*ssa.Call); ok && callName(c.Common()) == "Unroll" && recvOf(c.Common()) != nil {
+				return recvOf(c.Common())
+			}
+		}
+		return nil
+	}
+	// the flat storage a slice value stands for: x.Unroll(), or a window of x.Impl
+	flatOwner := func(v ssa.Value) ssa.Value {
+		if rb := unrollRecv(v); rb != nil {
+			return rb
+		}
+		for _, o := range origins(v) {
+			if sl, ok := o.(*ssa.Slice); ok && isImplValue(sl.X) {
+				return implOwner(sl.X)
+			}
+		}
+		return nil
+	}
+	type cand struct {
+		fn    *ssa.Function
+		write ssa.Instruction
+		recv  ssa.Value
+	}
+	var cands []cand
+	seenWrite := map[ssa.Instruction]bool{}
+	for _, s := range unrollSites(p) {
+		if s.write != nil && s.fn != nil && !seenWrite[s.write] {
+			seenWrite[s.write] = true
+			cands = append(cands, cand{s.fn, s.write, s.recv})
+		}
+	}
+	// block copies between windows of two backing stores
+	for _, fn := range dataFuncs(p) {
+		for _, c := range callsIn(fn) {
+			bi, ok := c.Common().Value.(*ssa.Builtin)
+			if !ok || bi.Name() != "copy" || len(c.Common().Args) != 2 || seenWrite[c] {
+				continue
+			}
+			if a := flatOwner(c.Common().Args[0]); a != nil && unrollRecv(c.Common().Args[0]) == nil {
+				seenWrite[c] = true
+				cands = append(cands, cand{fn, c, a})
+			}
+		}
+	}
+	for _, s := range cands {
+		if s.fn == nil || fnPkg(s.fn) == nil {
+			continue
+		}
+		rel := relPkg(fnPkg(s.fn).Path())
+		if cOnly != (rel == "data/cdata") || !strings.HasPrefix(rel, "data") {
+			continue
+		}
+		A := s.recv
+		var B ssa.Value
+		switch w := s.write.(type) {
+		case ssa.CallInstruction:
+			if bi, ok := w.Common().Value.(*ssa.Builtin); ok && bi.Name() == "copy" && len(w.Common().Args) == 2 {
+				B = flatOwner(w.Common().Args[1])
+				if B != nil && sameObj(B, A) {
+					B = nil // a move within one array
+				}
+			}
+		case *ssa.Store:
+			ia, ok := w.Addr.(*ssa.IndexAddr)
+			if !ok {
+				break
+			}
+			// the value stored reads another unrolled slice at the same position
+			seen := map[ssa.Value]bool{}
+			var walk func(v ssa.Value, depth int)
+			walk = func(v ssa.Value, depth int) {
+				if v == nil || seen[v] || depth > 6 || B != nil {
+					return
+				}
+				seen[v] = true
+				switch x := v.(type) {
+				case *ssa.UnOp:
+					if x.Op == token.MUL {
+						if ia2, ok := x.X.(*ssa.IndexAddr); ok && sameValue(ia2.Index, ia.Index) {
+							if rb := unrollRecv(ia2.X); rb != nil && !sameObj(rb, A) {
+								B = rb
+								return
+							}
+						}
+						return
+					}
+					walk(x.X, depth+1)
+				case *ssa.BinOp:
+					walk(x.X, depth+1)
+					walk(x.Y, depth+1)
+				case *ssa.Convert:
+					walk(x.X, depth+1)
+				case *ssa.Call:
+					for _, a := range x.Common().Args {
+						walk(a, depth+1)
+					}
+				case *ssa.Phi:
+					for _, e := range x.Edges {
+						walk(e, depth+1)
+					}
+				}
+			}
+			walk(w.Val, 0)
+		}
+		if B == nil {
+			continue
+		}
+		n++
+		key := fmt.Sprintf("%s:flat-pairing:%s<-%s", FuncKey(s.fn), describeObj(A), describeObj(B))
+		shapeOf := func(v ssa.Value, arr ssa.Value) bool {
+			for _, o := range origins(v) {
+				if c, ok := o.(*ssa.Call); ok && callName(c.Common()) == "Shape" && recvOf(c.Common()) != nil && sameObj(recvOf(c.Common()), arr) {
+					return true
+				}
+				if u, ok := o.(*ssa.UnOp); ok && u.Op == token.MUL {
+					if fa, ok := u.X.(*ssa.FieldAddr); ok {
+						if name, base, _ := fieldName(fa); name == "Dims" && sameObj(base, arr) {
+							return true
+						}
+					}
+				}
+			}
+			return false
+		}
+		why := ""
+		// (1) the destination is a view cut to the source's shape
+		for _, o := range origins(A) {
+			if c, ok := stripConv(o).(*ssa.Call); ok && callName(c.Common()) == "Slice" && len(callArgs(c.Common())) == 3 && shapeOf(callArgs(c.Common())[1], B) {
+				why = "the destination is a view cut to the source's shape"
+			}
+		}
+		// (3) a guard compares the two shapes
+		if why == "" {
+			for _, g := range guardsAt(s.write.Block()) {
+				c, ok := g.Cond.(*ssa.Call)
+				if !ok || !g.Val {
+					continue
+				}
+				hasA, hasB := false, false
+				for _, a := range c.Common().Args {
+					if shapeOf(a, A) {
+						hasA = true
+					}
+					if shapeOf(a, B) {
+						hasB = true
+					}
+				}
+				if hasA && hasB {
+					why = "a guard compares the two shapes (" + callName(c.Common()) + ")"
+				}
+			}
+		}
+		// (2) the general path pairs the same arrays by one index vector
+		if why == "" {
+			// … in the function itself, or in a visitor closure it hands to an enumeration helper
+			outer := func(v ssa.Value) ssa.Value {
+				for _, o := range origins(v) {
+					if u, ok := o.(*ssa.UnOp); ok {
+						if _, isFree := u.X.(*ssa.FreeVar); isFree {
+							if vs := resolveCapturedLoad(u); len(vs) == 1 {
+								return vs[0]
+							}
+						}
+					}
+				}
+				return v
+			}
+			bodies := []*ssa.Function{s.fn}
+			eachInstr(s.fn, func(_ *ssa.BasicBlock, _ int, ins ssa.Instruction) {
+				if mc, ok := ins.(*ssa.MakeClosure); ok {
+					if f, ok := mc.Fn.(*ssa.Function); ok {
+						bodies = append(bodies, f)
+					}
+				}
+			})
+			for _, body := range bodies {
+				for _, c := range callsIn(body) {
+					if callName(c.Common()) != "Set" || recvOf(c.Common()) == nil || !sameObj(outer(recvOf(c.Common())), A) {
+						continue
+					}
+					idx := callArgs(c.Common())[0]
+					for _, c2 := range callsIn(body) {
+						if callName(c2.Common()) == "Get" && recvOf(c2.Common()) != nil && sameObj(outer(recvOf(c2.Common())), B) && sameValue(callArgs(c2.Common())[0], idx) {
+							why = "the general path of the function pairs the two arrays by one index vector (same shape is the contract of both paths)"
+						}
+					}
+				}
+			}
+		}
+		if why != "" {
+			r.OK("R02.11", fmt.Sprintf("%s: %s.Unroll() paired with %s.Unroll(): %s", FuncKey(s.fn), describeObj(A), describeObj(B), why))
+		} else {
+			r.Fail("R02.11", key, p.Pos(s.write.Pos()), fmt.Sprintf("the fast path pairs the flat storage of %s and %s position by position, but nothing makes their shapes agree: the destination is not cut to the source's shape, no guard compares the shapes, and the general path does not pair them by one index vector. With a source narrower in a trailing axis its rows run into each other in the destination, where the element-by-element copy would fill the leading columns of each row", describeObj(A), describeObj(B)))
+		}
+	}
+	r.Floor("R02.11", "flat pairings of two arrays", n, 8)
 }
